@@ -123,6 +123,16 @@ def gen_test(rng, idx, failure=None, kinds=None):
             return GenTest(Fn(name, [("x", U), ("y", U), ("z", U)], body), [[K, 0, 0], [K, 1, 0], [1, K, 0]], False, kind, failure, feats, needs_refinement=True)
         body = arg(1) + arg(0) + [op, K, "EQ"] + arg(1) + ["ISZERO", "AND", "@bad", "JUMPI", "STOP"] + bad
         return GenTest(Fn(name, [("x", U), ("y", U)], body), [[K, 0], [0, 0]], False, kind, failure, feats, needs_refinement=True)
+    if kind == "warp_writer":
+        # never fails; changes block fields on its main path (other tests must not see this)
+        K = 0x77777
+        body = arg(0) + [7, "EQ", "@other", "JUMPI"] + vm("warp(uint256)", [K]) + vm("roll(uint256)", [K]) + ["STOP", ":other", "STOP"] + bad
+        return GenTest(Fn(name, [("x", U)], body), [[7], [0]], False, kind, failure, feats | {"writes-block"})
+    if kind == "time_guard":
+        # fails iff the block timestamp / number were changed by someone else (unreachable from the post-setUp state)
+        K = 0x77777
+        body = ["TIMESTAMP", K, "EQ", "NUMBER", K, "EQ", "OR"] + arg(0) + [42, "EQ", "AND", "@bad", "JUMPI", "STOP"] + bad
+        return GenTest(Fn(name, [("y", U)], body), [[42]], False, kind, failure, feats | {"reads-block"})
     if kind == "arr_sum":
         K = rng.getrandbits(64) + 2
         body = (arg(0) + [4, "ADD", "DUP1", "CALLDATALOAD", 2, "EQ", "ISZERO", "@ok", "JUMPI", "DUP1", 32, "ADD", "CALLDATALOAD", "SWAP1", 64, "ADD", "CALLDATALOAD", "ADD",
